@@ -366,7 +366,9 @@ class Decoder:
         language = datatype = None
         if literal.langtag:
             language = literal.langtag
-        elif self.datatypes.lookup_size and literal.HasField("datatype"):
+        elif literal.HasField("datatype"):
+            # with the datatype lookup disabled (size 0) any reference is invalid
+            # and is refused by the lookup instead of being silently dropped
             datatype = self.datatypes.decode_datatype_term_index(literal.datatype)
         return self.adapter.literal(
             lex=literal.lex,
